@@ -248,6 +248,8 @@ func genC02(rt *rapid.T, tier string) any {
 	c.Chunks = rapid.SliceOfN(rapid.SampledFrom([]int{0, 1, 2, 3, 7, 16, 64, 4096}), 1, 4).Draw(rt, "chunks")
 	c.BufSz = rapid.SampledFrom([]int{16, 17, 64, 4096, 65536}).Draw(rt, "bufsz")
 	c.Sched = genSched(rt)
+	// reader goroutine and consumer only meet at the channel: no pre-emption inside callee code (it would only slow down deep documents)
+	c.Sched.Preempt, c.Sched.Quantum = nil, 0
 	return c
 }
 
